@@ -41,6 +41,17 @@ func NewDisputeTracker() *DisputeTracker {
 		refunded: map[string]bool{}, claimed: map[string]bool{}, execAt: map[uint64]int64{}, fundedAt: map[uint64]int64{}}
 }
 
+// ids returns the known dispute ids in ascending order (oracles iterate in a fixed order so that the first
+// violation of a block is the same on every execution).
+func (t *DisputeTracker) ids() []uint64 {
+	out := make([]uint64, 0, len(t.cur))
+	for id := range t.cur {
+		out = append(out, id)
+	}
+	sort.Slice(out, func(i, j int) bool { return out[i] < out[j] })
+	return out
+}
+
 func (t *DisputeTracker) tipsAt(addr string, h uint64) *big.Int {
 	out := new(big.Int)
 	for _, r := range t.tips[addr] {
@@ -199,7 +210,7 @@ func (o *OracleC11) AfterBlock(c *Chain, b *BlockCtx) []*Violation {
 	// several disputes funded in one block take stake from the same backers: the per-dispute loss is then not
 	// observable at block granularity (the per-backer record check still applies)
 	fundedNow := 0
-	for id := range o.t.cur {
+	for _, id := range o.t.ids() {
 		if o.t.fundedAt[id] == b.H {
 			fundedNow++
 		}
@@ -209,7 +220,8 @@ func (o *OracleC11) AfterBlock(c *Chain, b *BlockCtx) []*Violation {
 		o.count("blocks_with_several_fundings(loss check skipped)")
 	}
 
-	for id, d := range o.t.cur {
+	for _, id := range o.t.ids() {
+		d := o.t.cur[id]
 		p, had := o.t.prev[id]
 		// ---- expiry of unfunded disputes
 		if had && p.D.DisputeStatus == disputetypes.Prevote && d.D.DisputeStatus == disputetypes.Prevote && b.Time.After(p.D.DisputeEndTime.Add(time.Millisecond)) {
@@ -388,7 +400,8 @@ func (o *OracleC12) AfterBlock(c *Chain, b *BlockCtx) []*Violation {
 	var out []*Violation
 	v := c.ViewOf(b.Ref)
 	// ---- lifecycle
-	for id, d := range o.t.cur {
+	for _, id := range o.t.ids() {
+		d := o.t.cur[id]
 		p, had := o.t.prev[id]
 		if !had {
 			if d.D.DisputeStatus != disputetypes.Prevote && d.D.DisputeStatus != disputetypes.Voting && !(d.D.DisputeStatus == disputetypes.Resolved || d.D.DisputeStatus == disputetypes.Unresolved) {
@@ -500,13 +513,15 @@ func (o *OracleC12) AfterBlock(c *Chain, b *BlockCtx) []*Violation {
 	for _, vr := range v.Voters() {
 		byDispute[vr.ID] = append(byDispute[vr.ID], vr)
 	}
-	for id, d := range o.t.cur {
+	for _, id := range o.t.ids() {
+		d := o.t.cur[id]
 		cnt, err := b.Ref.App.DisputeKeeper.VoteCountsByGroup.Get(v.ctx, id)
 		if err != nil {
 			continue
 		}
 		o.count("counter_sets_checked")
-		for name, g := range map[string]disputetypes.VoteCounts{"users": cnt.Users, "reporters": cnt.Reporters, "tokenholders": cnt.Tokenholders, "team": cnt.Team} {
+		for gi, g := range []disputetypes.VoteCounts{cnt.Users, cnt.Reporters, cnt.Tokenholders, cnt.Team} {
+			name := []string{"users", "reporters", "tokenholders", "team"}[gi]
 			for _, x := range []uint64{g.Support, g.Against, g.Invalid} {
 				if x > 1<<62 {
 					out = append(out, o.v(b.H, "counters", "VoteCountsByGroup", "counter-wrapped", "dispute %d: %s counter holds %d (an unsigned counter went below zero)", id, name, x))
